@@ -763,6 +763,15 @@ def World.step (w : World) (op : Op) : World × List WOut × List WOut :=
       let r' := World.effects fuel r.1 r.2
       (r'.1.tables op r.2, r.2, r'.2)
 
+/-- A run of the composed world: all outputs (the target's own, then those of the actors its
+effects reached), tagged by actor, in order. -/
+def World.run (w : World) : List Op → World × List WOut
+  | [] => (w, [])
+  | op :: ops =>
+    let r := w.step op
+    let r' := World.run r.1 ops
+    (r'.1, r.2.1 ++ r.2.2 ++ r'.2)
+
 /-! ### Source-derived tables the model depends on (tied to `Extracted` in `Props/`) -/
 
 /-- `listen` tests the ports in this order (the textual arm order of the biased `select!`). -/
